@@ -24,7 +24,7 @@ def run(c):
             "cachedPartitionsResults / controllerID / coordinators / seedBrokers / deadSeeds does so between lock.Lock/RLock and the "
             "matching Unlock (writes under the write lock); helpers without locking are called with the write lock held — the premise of c15_atomic")
     c.assume("each critical section of client.go is one atomic step (sync.RWMutex); API reads that refresh on a miss are up to three steps")
-    c.assume("map iteration order of client.brokers is an oracle: every order of the known brokers is accepted / quantified over")
+    c.assume("map iteration order of client.brokers is an oracle: every order of the known brokers is accepted / quantified over, chosen anew for every pass of a refresh (each retry re-entry iterates the Go map afresh)")
     c.assume("when the metadata deadline passes is an environment event: the correspondence accepts any moment, the monitor states only "
              "rules that hold for every moment, and a monitor failure of a deadline scenario counts only if the same script fails twice")
     c.assume("SASL / topic-authorization failures (which end a refresh by design) are modelled but not produced by the harness")
